@@ -177,7 +177,9 @@ let check_case acc ~klass ~with_info (c : wcfg) (ops : (string * string) list) =
      (* the model predicts the assertion failure - it follows the code - but every configuration and add sequence generated
         here is one the properties quantify over: an abort is a violation, model or not *)
      bump acc "both_abort";
-     viol "[C08,C09,C01]" "writer aborted on an add sequence it must handle (the model of the code predicts the failing assertion)" (Printf.sprintf "signal %d" s)
+     (* a restart interval of 0 is outside the quantifier of C01 / C09 ("restart intervals >= 1"); the statement of C08 - an add
+        succeeds iff its key is greater than the last accepted one - has no such restriction *)
+     viol (if c.interval = Some 0 then "[C08]" else "[C08,C09,C01]") "writer aborted on an add sequence it must handle (the model of the code predicts the failing assertion)" (Printf.sprintf "signal %d" s)
    | Signaled (s, _), _ ->
      mism "[C08,C09,C10,C01]" "writer ended by a signal" (Printf.sprintf "signal %d" s) "completes";
      viol "[C08,C09,C01]" "writer aborted on an add sequence it must handle" (Printf.sprintf "signal %d" s)
